@@ -169,6 +169,10 @@ class MystReferenceResolver(ReferencesResolver):
             innernode = nodes.inline(caption, "", classes=inner_classes)
             innernode.extend(node[0].children)
         else:
+            if not implicit_text:
+                # e.g. the local id was not found: fall back to the document title,
+                # so that the link is never rendered without any text
+                implicit_text = clean_astext(self.env.titles[ref_docname])
             innernode = nodes.inline(
                 implicit_text, implicit_text, classes=inner_classes
             )
